@@ -131,8 +131,9 @@ class Names:
             return out
         return self._memo("generators", go)
 
-    def exclusive_helpers(self, key):
-        """private loop-free helpers that only `key` (or helpers of `key`) calls: read as part of it whatever their size"""
+    def exclusive_helpers(self, key, loops=False):
+        """private loop-free helpers that only `key` (or helpers of `key`) calls: read as part of it whatever their size
+        (with loops=True: helpers with loops of their own too)"""
         def go():
             from .. import cfg as cfgmod
             f = self.f
@@ -155,12 +156,12 @@ class Names:
                         continue
                     if not callers.get(h, set()) <= ({key} | out):
                         continue
-                    if cfgmod.natural_loops(hb):
+                    if cfgmod.natural_loops(hb) and not loops:
                         continue
                     out.add(h)
                     work.append(h)
             return out
-        return self._memo(("exclusive", key), go)
+        return self._memo(("exclusive", key, loops), go)
 
     def exclusive_subgenerators(self, key):
         """private helpers that take the listener and that only generator `key` calls (a part of the generator moved into
